@@ -18,7 +18,7 @@ func init() {
 	register(&Rule{
 		Name:  "ENC-NUM",
 		Doc:   "every site that decides whether an identifier spelled with digits is an unnamed ID or a name — the encoders of internal/enc that choose quoted vs bare spelling, the decoders of package asm, and constructors of identifier values in ir — applies one predicate (the same strconv function with the same sign test), so a name is never printed in a form that is read back as an ID or vice versa",
-		Floor: 6,
+		Floor: 4,
 		Run:   ruleENCNUM,
 	})
 	register(&Rule{
